@@ -139,14 +139,29 @@ class SharedStream(ParamStream):
 
 TRUSTED = [
     "Coq 8.16.1 kernel + vm_compute",
-    "hand-written model Params.v tied to /repo by this correspondence run (sampled)",
+    "hand-written model Params.v tied to /repo (a) for ALL dictionaries by the translation obligation: harness/translate_params.py "
+    "(trusted, fail-closed symbolic executor over Python's ast, ~450 lines) turns the current source of Structure.update_params, "
+    "Model.update_params, Solver.update_params, Solver.add_param and the default collection of Solver.add_structure into Gallina and "
+    "coq/templates/ParamsSrcProof.v proves each equal (as finite maps) to rename_shield / model_update / solver_update / the "
+    "node_defaults step / collect_defaults of Params.v; (b) by this correspondence run (sampled), which also covers the glue "
+    "(who calls these routines with what)",
+    "translator's reading of Python dicts: deepcopy/copy/update/pop/clear/items/`in`/item assignment per the language reference; "
+    "dictionaries are association lists with distinct keys (hypothesis NoDup keys in the theorems)",
     "harness: probe model (transmission = parameter value), hierarchy/renaming/default generator",
 ]
 
 if __name__ == "__main__":
+    import translate_params
+    from common import source_obligation
     main("C05", [ParamStream(), SharedStream()],
+         source_obligations=[source_obligation(
+             "ParamsSrc_C05", translate_params.translate, "ParamsSrcProof.v",
+             ["structure_update_src_is_rename_shield", "model_update_src_is_model_update",
+              "solver_update_src_is_solver_update", "add_param_src_spec", "collect_defaults_src_is_collect_defaults"])],
          level_text="props/C05.v; the tie builds hierarchies of solvers whose leaves are probes (transmission = the value of "
                     "their parameter) with random injective renamings incl. swaps and chains in every listing order, defaults at "
                     "model / solver level (before and after add_param), add_param definitions and explicit values, and compares "
-                    "the value every leaf actually used with the model.",
-         trusted_base=TRUSTED, assumptions=["add_param functions are the three of the harness library"])
+                    "the value every leaf actually used with the model. In addition the CURRENT source of the five dictionary routines "
+                    "that deliver parameters is translated to Gallina on every run and proved equal to the model for all "
+                    "dictionaries (ParamsSrcProof.v).",
+         trusted_base=TRUSTED, assumptions=["add_param functions are the four of the harness library"])
